@@ -412,3 +412,33 @@ package factstore
 //@   requires s.mutex != nil && s.base != nil && sync.held(s.mutex) == 0
 //@   guard call EstimateFactCount: sync.held(s.mutex) >= 1
 //@   ensures sync.held(s.mutex) == 0
+
+// ---- C19 / C10: simple column format ------------------------------------------------------------------
+
+//@ spec func hdrOK(preds []ast.PredicateSym, counts []int) bool = len(counts) == len(preds) && len(preds) <= 65536 &&
+//@      (forall k int :: 0 <= k && k < len(preds) ==> 0 <= counts[k] && counts[k] <= 4294967296 && 0 <= preds[k].Arity && preds[k].Arity <= 1024)
+
+// A header that is accepted describes non-negative fact counts and arities within the documented limits.
+//@ func readHeader(scanner)
+//@   ensures err == nil ==> hdrOK(ret0, ret1)
+//@   loop 1 invariant 0 <= i && i <= numPreds && numPreds <= 65536 && len(preds) == numPreds && len(predNumFacts) == numPreds
+//@   loop 1 invariant forall k int :: 0 <= k && k < i ==> 0 <= predNumFacts[k] && predNumFacts[k] <= 4294967296 && 0 <= preds[k].Arity && preds[k].Arity <= 1024
+
+// Number of data lines before the block of predicate number n: sum of count*arity over earlier predicates with arity > 0.
+//@ spec func blockOffset(preds []ast.PredicateSym, counts []int, n int) int =
+//@      n <= 0 ? 0 : blockOffset(preds, counts, n-1) + (preds[n-1].Arity == 0 ? 0 : counts[n-1] * preds[n-1].Arity)
+//@ lemma blockOffsetBound(preds []ast.PredicateSym, counts []int, n int):
+//@   hdrOK(preds, counts) && 0 <= n && n <= len(preds) ==> 0 <= blockOffset(preds, counts, n) && blockOffset(preds, counts, n) <= n * 4398046511104
+//@   decreases n
+//@   induct blockOffsetBound(preds, counts, n - 1)
+
+// The lazy view skips exactly the header and the blocks of the predicates listed before the queried one.
+//@ func (s *SimpleColumnStore) GetFacts(query, cb)
+//@   requires s != nil && hdrOK(s.predicates, s.predicateFactCount)
+//@   guard call readPred: numFacts == 0 || exists i int :: 0 <= i && i < len(s.predicates) && s.predicates[i] == query.Predicate
+//@          && (forall k int :: 0 <= k && k < i ==> s.predicates[k] != query.Predicate)
+//@          && toSkip == 1 + len(s.predicates) + blockOffset(s.predicates, s.predicateFactCount, i) && numFacts == s.predicateFactCount[i] && numFacts > 0
+//@   loop 1 invariant -1 <= rangeindex && rangeindex < len(s.predicates) && numFacts == 0 && pred == query.Predicate
+//@   loop 1 invariant forall k int :: 0 <= k && k <= rangeindex ==> s.predicates[k] != pred
+//@   loop 1 invariant toSkip == 1 + len(s.predicates) + blockOffset(s.predicates, s.predicateFactCount, rangeindex + 1)
+//@   loop 1 invariant 0 <= blockOffset(s.predicates, s.predicateFactCount, rangeindex + 1) && blockOffset(s.predicates, s.predicateFactCount, rangeindex + 1) <= (rangeindex + 1) * 4398046511104
